@@ -767,6 +767,11 @@ save_expansion(Expansion &expansion, const string &exp, const vector_string &par
       // to the closing quote and keep the spelling as it is.
       p = skip_literal(exp, p);
 
+    } else if (exp[p] == '#' && !_has_parameters &&
+               (p + 1 >= exp.size() || exp[p + 1] != '#')) {
+      // In an object-like macro, a single # is a token like any other.
+      ++p;
+
     } else if (exp[p] == '#') {
       // This may be a stringification operator.
       if (last != p) {
